@@ -236,11 +236,14 @@ pub struct Opts {
     pub collect_vec: bool,
     /// Euler is configured through with_maximum_dt(dt_max) only
     pub mode: DimMode,
+    /// order in which the builder calls are made (a valid configuration must build to the same
+    /// solver whatever the order): 0 = min, max, tol, t0, t1, ic, derivative; other values permute
+    pub order: u8,
 }
 
 impl Default for Opts {
     fn default() -> Self {
-        Opts { budget: 5_000_000, fail_at: None, max_items: 200_000, extra_next: 0, collect_vec: false, mode: DimMode::Dynamic }
+        Opts { budget: 5_000_000, fail_at: None, max_items: 200_000, extra_next: 0, collect_vec: false, mode: DimMode::Dynamic, order: 0 }
     }
 }
 
@@ -290,24 +293,38 @@ where
             DimMode::Dynamic => S::new_dyn(n),
         }
         .map_err(|e| ("new".to_string(), format!("{:?}", e)))?;
-        let b = if solver == Solver::Euler {
-            b.with_maximum_dt(cfg.dt_max).map_err(|e| ("with_maximum_dt".to_string(), format!("{:?}", e)))?
-        } else {
-            b.with_minimum_dt(cfg.dt_min)
-                .map_err(|e| ("with_minimum_dt".to_string(), format!("{:?}", e)))?
-                .with_maximum_dt(cfg.dt_max)
-                .map_err(|e| ("with_maximum_dt".to_string(), format!("{:?}", e)))?
-                .with_tolerance(cfg.tol)
-                .map_err(|e| ("with_tolerance".to_string(), format!("{:?}", e)))?
-        };
-        let b = b
-            .with_initial_time(cfg.t0)
-            .map_err(|e| ("with_initial_time".to_string(), format!("{:?}", e)))?
-            .with_ending_time(cfg.t1)
-            .map_err(|e| ("with_ending_time".to_string(), format!("{:?}", e)))?
-            .with_initial_conditions_slice(y0)
-            .map_err(|e| ("with_initial_conditions_slice".to_string(), format!("{:?}", e)))?
-            .with_derivative(deriv);
+        // the builder calls, in the order selected by opts.order
+        #[derive(Clone, Copy, PartialEq)]
+        enum Call {
+            Min,
+            Max,
+            Tol,
+            T0,
+            T1,
+            Ic,
+        }
+        let orders: [[Call; 6]; 6] = [
+            [Call::Min, Call::Max, Call::Tol, Call::T0, Call::T1, Call::Ic],
+            [Call::Max, Call::Min, Call::Tol, Call::T0, Call::T1, Call::Ic],
+            [Call::Tol, Call::Max, Call::Min, Call::T1, Call::T0, Call::Ic],
+            [Call::T1, Call::T0, Call::Ic, Call::Max, Call::Tol, Call::Min],
+            [Call::Ic, Call::T0, Call::Max, Call::T1, Call::Min, Call::Tol],
+            [Call::T0, Call::Min, Call::T1, Call::Tol, Call::Ic, Call::Max],
+        ];
+        let mut b = b;
+        for c in orders[(opts.order % 6) as usize] {
+            b = match c {
+                Call::Min if solver == Solver::Euler => b,
+                Call::Tol if solver == Solver::Euler => b,
+                Call::Min => b.with_minimum_dt(cfg.dt_min).map_err(|e| ("with_minimum_dt".to_string(), format!("{:?}", e)))?,
+                Call::Max => b.with_maximum_dt(cfg.dt_max).map_err(|e| ("with_maximum_dt".to_string(), format!("{:?}", e)))?,
+                Call::Tol => b.with_tolerance(cfg.tol).map_err(|e| ("with_tolerance".to_string(), format!("{:?}", e)))?,
+                Call::T0 => b.with_initial_time(cfg.t0).map_err(|e| ("with_initial_time".to_string(), format!("{:?}", e)))?,
+                Call::T1 => b.with_ending_time(cfg.t1).map_err(|e| ("with_ending_time".to_string(), format!("{:?}", e)))?,
+                Call::Ic => b.with_initial_conditions_slice(y0).map_err(|e| ("with_initial_conditions_slice".to_string(), format!("{:?}", e)))?,
+            };
+        }
+        let b = b.with_derivative(deriv);
         let mut it = b.solve(()).map_err(|e| ("solve".to_string(), format!("{:?}", e)))?;
         let mut items = vec![];
         let mut truncated = false;
